@@ -46,7 +46,9 @@ try:
             env = dict(os.environ, PYTHONPATH=wt + "/src:/verif/harness/shims", PYTHONHASHSEED="0")   # tests/test_pref_profile.py::test_create_df depends on the hash seed on unchanged code
             t0 = time.time()
             r = subprocess.run(["/venv/bin/python", "-m", "pytest", "-q", "-p", "no:cacheprovider", "-n", "8", "-x"], cwd=wt, env=env, capture_output=True, text=True)
-            tail = (r.stdout.strip().splitlines() or [""])[-1]
+            import re as _re
+            cand = [l for l in r.stdout.strip().splitlines() if _re.search(r"\d+ (passed|failed|error)", l)]
+            tail = (cand or r.stdout.strip().splitlines() or [""])[-1]
             res["tests"] = {"rc": r.returncode, "summary": tail, "wall_s": round(time.time() - t0)}
         res["checks"] = {}
         if "--no-checks" in args:
